@@ -322,7 +322,15 @@ func (P *point) IsCanonical(s []byte) bool {
 	return 1-(c&d&1) == 1
 }
 
+// defaultHashDST is used by Hash when the caller passes an empty domain separation tag
+// (RFC 9380: "Tags MUST have nonzero length"); the BLS12-381 back-ends do the same.
+const defaultHashDST = "KYBER-V04-CS01-with-edwards25519_XMD:SHA-512_ELL2_RO_"
+
 func (P *point) Hash(m []byte, dst string) kyber.Point {
+	if dst == "" {
+		// expandMessageXMD refuses an empty tag; hashToField would then slice a nil buffer
+		dst = defaultHashDST
+	}
 	u := hashToField(m, dst, 2)
 	q0 := mapToCurveElligator2Ed25519(u[0])
 	q1 := mapToCurveElligator2Ed25519(u[1])
